@@ -96,7 +96,12 @@ def hof_case(symbol, fidx, arity, result_kind):
             node, a, kw = rest                                     # a call `isinstance(x, C)` in the code
             return VBool(models.isinstance_(ex, a[0], a[1]))
         hooks = std_hooks(tok, {'index': index, 'func': call_func, 'self[0].select': lambda ex, node, a, kw: seq, 'self.get_argument': get_argument,
-                                'isinstance': isinstance_hook})
+                                'isinstance': isinstance_hook,
+                                # the function argument of the modelled call is a named function reference (f#n: no argument tokens)
+                                'func.is_reference': lambda ex, node, a, kw: VBool(True),
+                                # $zero: the modelled call passes one item (a longer $zero is covered by the bounded programs only)
+                                'self[1].select': lambda ex, node, a, kw: VPyList([zero]),
+                                'copy': lambda ex, node, a, kw: a[0]})      # copy(context) only feeds the hooked select above
         return Case([tok, ctx], hooks=hooks, names={'zero': zero})
     return setup
 
